@@ -281,6 +281,10 @@ def evalValues (fuel : Nat) (ctx : Ctx) (first : Bool := true) : PM (List Expr) 
       | _ => -1
     if retLen == 0 then err else
     if retLen > 1 && !first then err else
+    -- only a call itself can stand for no value or for several values; any other expression of such a type (a call in
+    -- brackets) is no value
+    if (Expr.valueType e).dt == .unknown ||
+       ((Expr.valueType e).dt == .multiple && !(match e with | .call _ _ _ | .app _ _ _ => true | _ => false)) then err else
     if next.ty != TT_COMMA then pure [e] else do
       let _ ← eat
       if retLen > 1 then err else do
